@@ -122,6 +122,27 @@ int main() {
       ZonedDateTime::forEpochSeconds(LocalDate::kInvalidEpochSeconds, TimeZone::forUtc()).printTo(h);
       OffsetDateTime::forEpochSeconds(LocalDate::kInvalidEpochSeconds, TimeOffset()).printTo(i);
       printf("ERR2 %s|%s\n", hex(h.buf).c_str(), hex(i.buf).c_str());
+    } else if (!strcmp(cmd, "ERR3")) {
+      // values that are errors because of ONE invalid part: "<kind> <isError> <printed>" per value
+      int y, mo, d, h, mi, sec, off;
+      sscanf(rest, "%d %d %d %d %d %d %d", &y, &mo, &d, &h, &mi, &sec, &off);
+      TimeOffset o = (off == 99999) ? TimeOffset::forError() : TimeOffset::forMinutes((int16_t) off);
+      LocalDate ld = LocalDate::forComponents((int16_t) y, (uint8_t) mo, (uint8_t) d);
+      LocalTime lt = LocalTime::forComponents((uint8_t) h, (uint8_t) mi, (uint8_t) sec);
+      LocalDateTime ldt = LocalDateTime::forComponents((int16_t) y, (uint8_t) mo, (uint8_t) d, (uint8_t) h, (uint8_t) mi, (uint8_t) sec);
+      OffsetDateTime odt = OffsetDateTime::forComponents((int16_t) y, (uint8_t) mo, (uint8_t) d, (uint8_t) h, (uint8_t) mi, (uint8_t) sec, o);
+      TimeZone tz = (off == 99999) ? TimeZone::forError() : TimeZone::forTimeOffset(o);
+      ZonedDateTime zdt = ZonedDateTime::forComponents((int16_t) y, (uint8_t) mo, (uint8_t) d, (uint8_t) h, (uint8_t) mi, (uint8_t) sec, tz);
+      ZonedDateTime zx = ZonedDateTime::forComponents((int16_t) y, (uint8_t) mo, (uint8_t) d, (uint8_t) h, (uint8_t) mi, (uint8_t) sec,
+          TimeZone::forZoneInfo(&zonedbx::kZoneAmerica_Los_Angeles, &xp));
+      OffsetDateTime ox = OffsetDateTime::forComponents((int16_t) y, (uint8_t) mo, (uint8_t) d, (uint8_t) h, (uint8_t) mi, (uint8_t) sec,
+          TimeZone::forZoneInfo(&zonedbx::kZoneAmerica_Los_Angeles, &xp).getUtcOffset(ldt.toEpochSeconds()));
+      Print a, b, c, e, f, g, i2;
+      ld.printTo(a); lt.printTo(b); ldt.printTo(c); odt.printTo(e); zdt.printTo(f); zx.printTo(g); ox.printTo(i2);
+      printf("ERR3 %d %d %d %d %d %d %d|%d %s|%d %s|%d %s|%d %s|%d %s|%d %s|%d %s\n", y, mo, d, h, mi, sec, off,
+          ld.isError() ? 1 : 0, hex(a.buf).c_str(), lt.isError() ? 1 : 0, hex(b.buf).c_str(), ldt.isError() ? 1 : 0, hex(c.buf).c_str(),
+          odt.isError() ? 1 : 0, hex(e.buf).c_str(), zdt.isError() ? 1 : 0, hex(f.buf).c_str(), zx.isError() ? 1 : 0, hex(g.buf).c_str(),
+          ox.isError() ? 1 : 0, hex(i2.buf).c_str());
     } else if (!strcmp(cmd, "PARSE")) {
       char kind[16], hx[400];
       hx[0] = 0;
